@@ -1,9 +1,9 @@
 """C14 — API commands: same order, one acknowledgement each, no side effects on error.
 
 Units
-  reassembly/*  : the real Processes._async_reader_callback + received_async with os.read scripted: a stream of L
-                  characters whose CLASS (newline / whitespace / other) is symbolic per position, cut into <=k chunks at
-                  symbolic offsets, drained by received_async a symbolic number of times between reads.
+  reassembly/*  : the real Processes._async_reader_callback + received_async with os.read scripted: every stream of L
+                  characters over the CLASSES newline / whitespace / other, cut into <=k chunks at symbolic offsets,
+                  drained by received_async never / once / fully between reads, helper alive or exiting with the last read.
                   Oracle (written from the docstrings): the complete lines of the whole stream, in order, stripped;
                   nothing of a partial line is executed before its newline arrives.
   reply/*       : every handler reachable from the LIVE dispatch tables (v6 tree, v6 announce/withdraw/routes tables,
@@ -20,19 +20,68 @@ Units
 from __future__ import annotations
 
 import collections
+import warnings
 
 from sx.run import Unit
+
+# a coroutine dropped by ASYNC._run_async (finding: background generator) is reported by the checks, not by the interpreter
+warnings.filterwarnings('ignore', message='coroutine .* was never awaited', category=RuntimeWarning)
 
 import exabgp.reactor.api.processes as pm
 from exabgp.reactor.api.processes import Processes
 
 ID = 'C14'
 LEVEL = 'model_checking'
-TECHNIQUE = ('explicit exhaustive exploration (sx runner: one path per combination, every path replayed in a clean '
-             'interpreter) of the real reader callback / API.process / dispatch / command handlers')
-ASSUMPTIONS = []
-BOUNDS = {'quick': {}, 'thorough': {}}
-OUTSIDE = []
+TECHNIQUE = ('explicit-state exhaustive exploration under the sx runner (every combination of the bounded inputs is one '
+             'path, decided by z3-backed forks and replayed in a clean interpreter; for reassembly the character classes '
+             'beyond the first positions are enumerated by an exhaustive loop inside the path) of the REAL '
+             'Processes._async_reader_callback/received_async/answer_*, API.process, dispatch_v4/v6, every registered command '
+             'handler, ASYNC._run_async, Configuration.announce_route & co, match_neighbors, on real Neighbors/RIBs; '
+             'oracles: stream.split(newline) semantics, one terminal reply per command, conjunction of selector terms')
+ASSUMPTIONS = [
+    '(a) os.read in exabgp.reactor.api.processes is scripted (delivers the chosen chunks); the helper process is a fake Popen '
+    '(stdout.fileno, poll); threading.Thread in Processes._terminate is a no-op; ASCII input',
+    '(a) alphabet: newline, whitespace (space / CR / tab, by position), letters (distinct per position); the text of a path is concrete',
+    '(b) REAL: Processes (answer_done/answer_error/_answer/_answer_sync/answer_done_sync/answer_error_sync/write in async mode), '
+    'ASYNC (error handler = processes.answer_error_sync as Reactor.run_async wires it), API.process, dispatch, handlers; '
+    'Processes.flush_write_queue is a no-op (replies are read from _write_queue); coroutines are driven by hand, one main-loop '
+    'iteration per command (API.process, then ASYNC._run_async to completion) as Reactor._async_main_loop does',
+    '(b) STUBS with symbolic outcome: every API.api_* parser (value / second value / empty / raises), reactor.configuration.* '
+    '(announce_route, withdraw_route True|False, inject_*, *_indexed), rib.outgoing.* of the stub neighbors, reactor.neighbor_rib_* / '
+    'neighor_rib, peer.remove; single-fault model: at most one callee raises per command, exception in {ValueError, IndexError, '
+    'KeyError, RuntimeError}; reactor.peers / established_peers / teardown_peer / lookups return values (all | none established) and never raise',
+    '(b) a terminal reply is a written line equal to Answer.text_done/text_error/json_done/json_error/*_shutdown; '
+    '`session ack silence` / `silence-ack` is documented to send none and is expected to send none; acknowledgements enabled, text acks (_ackjson False as _start sets it)',
+    '(c) REAL: reader callback + formated(), API.process, dispatch, handlers, parsers (Configuration.partial), Configuration.announce_route/withdraw_route/'
+    'inject_*, Reactor.peers/established_peers/neighbor_rib_* (functions of exabgp.reactor.loop.Reactor bound to the stand-in), match_neighbors, '
+    'Neighbor (kits.session.neighbor_from), RIB/OutgoingRIB; Peer is a recorder (teardown/resend/remove), all peers ESTABLISHED, no socket',
+    '(c) four neighbors: A, B, C attached to the API process by `api { processes [ svc ]; }`, D configured without it; each RIB starts with one pending '
+    'route and one route held back by watchdog `dog`; state compared = pending announces/withdraws, attribute index, cache, resend list, watchdog table, '
+    'adj-rib-in cache, eor/refresh/operational queues, recorded session actions, global route store, peer/neighbor tables',
+    '(c) selector oracle (help text `[peer <ip> [filters]]`, filters local-ip/local-as/peer-as/router-id; extract_neighbors docstring): selected iff attached to the '
+    'process and, for one comma-separated alternative, the address equals <ip> (or `*`) and EVERY filter equals the neighbor value; `* <filters>` may also be refused with one error',
+]
+BOUNDS = {
+    'quick': {'reassembly': 'every stream of L<=8 characters over 3 classes x every cut into <=3 chunks x 5 drain/exit patterns; a 120-character text of commands (CRLF, debug line, empty line, trailing partial) x every cut into <=2 chunks, its last 35 characters x <=3 chunks',
+              'reply': 'every leaf of the live v6 dispatch tree and of the v6 announce/withdraw/routes tables, every key of the v4 translation tables and subcommand sets (+ one unregistered type each), '
+                       '2-4 argument variants per command, with peers / without peers, every callee outcome and every single fault point; sequences of 3 commands from a pool of 5; background generator of 2, 49, 50 steps',
+              'sideeffect': '44 invalid command texts x {v4, v6 spelling}; 5 valid ones; group mode with 4 invalid lines',
+              'selector': 'v4 and v6 spelling: <ip> from 6 values x local-ip(4) x local-as(4) x peer-as(4) x router-id(4) x term order for announce; '
+                          '6 x 4 x 4 for withdraw, watchdog, teardown, routes add, inline group; 2-alternative groups (4 x 3)^2'},
+    'thorough': {'reassembly': 'L<=8: every stream x <=4 chunks x 5 drain/exit patterns; L=9, 10: x <=4 chunks x 2 patterns; L=11, 12: x <=3 chunks, drained after every read',
+                 'reply': 'same + v6 spelling of announce under API version 4; background generator of 1, 2, 48, 49, 50, 51 steps',
+                 'sideeffect': 'same', 'selector': 'same'},
+}
+OUTSIDE = [
+    'the free-text grammar of commands is not symbolic (regex / tokeniser on symbolic text is out of reach): command texts are concrete lists; symbolic are chunking, '
+    'character classes, callee outcomes, fault points, selector terms (from pools), command choice',
+    'lines longer than MAX_COMMAND_SIZE (1 MiB), non-ASCII bytes, OSError from os.read, several helper processes interleaved, the unused synchronous twin Processes.received()',
+    'actual delivery of the queued reply bytes to the helper (flush_write_queue, EAGAIN, EPIPE, back-pressure)',
+    'sync mode (`sync` keyword / `session sync enable`) with connected peers: the wait for the RIB flush needs the event loop; multiple simultaneous faults; faults in reactor getters',
+    'JSON acknowledgements (_ackjson True is never set by _start), `session ack disable/silence` followed by further commands (acknowledgements off)',
+    'what a valid command does to the RIB beyond WHICH neighbors change (C04/C18), atomicity of a group (its docstring says all-or-nothing: not part of C14)',
+    'family-allowed selector key, selectors on neighbors with multi-session names',
+]
 
 
 class _Log:
@@ -65,6 +114,8 @@ def oracle_lines(stream):
     partial = parts.pop()
     out = []
     for line in parts:
+        if line.rstrip(' \t\r').startswith('debug '):
+            continue  # "debug <text>" is a request to log <text>, not a command
         s = line.strip(' \t\r').replace('\t', ' ')
         while '  ' in s:
             s = s.replace('  ', ' ')
@@ -174,7 +225,7 @@ def feed(stream, pieces, drain, exited=False):
     for n, (a, b) in enumerate(pieces):
         chunk = stream[a:b]
         fake_os.chunks.append(chunk.encode('ascii'))
-        if exited and n == last:
+        if exited is True and n == last:
             p._process[SVC].exit = 0
         p._async_reader_callback(SVC)
         seen, partial = oracle_lines(stream[:b])
@@ -188,7 +239,7 @@ def feed(stream, pieces, drain, exited=False):
         queued = [c for _, c in got] + [c for _, c in p._command_queue]
         if bad is None and queued != seen:
             bad = ('complete-lines-only', {'after-read': n, 'got': queued, 'want': seen})
-        if bad is None and not (exited and n == last) and p._buffer.get(SVC, '') != partial:
+        if bad is None and not (exited is True and n == last) and p._buffer.get(SVC, '') != partial:
             bad = ('partial-kept', {'after-read': n, 'buffer': p._buffer.get(SVC, ''), 'want': partial})
         if drain:
             while True:
@@ -198,6 +249,11 @@ def feed(stream, pieces, drain, exited=False):
                 got.extend(one)
                 if drain == 1 or not one:
                     break
+    if exited == 'eof':
+        # the helper is gone: the pipe reads empty and poll() reports the exit status
+        fake_os.chunks.append(b'')
+        p._process[SVC].exit = 0
+        p._async_reader_callback(SVC)
     while True:
         one = list(p.received_async())
         if not one:
@@ -213,10 +269,11 @@ PER_READ = {'complete-lines-only': 'C14:reassembly:queue-differs-from-complete-l
             'one-command-per-call': 'C14:reassembly:more-than-one-command-per-call'}
 
 
-MODES = ((1, False), (0, False), (2, False), (1, True), (0, True))  # (drain pattern, helper exits with the last read)
+# (drain pattern, helper: alive | exits with its last read (True) | exits later, seen as an empty read ('eof'))
+MODES = ((1, False), (0, False), (2, False), (1, True), (0, True), (1, 'eof'))
 
 
-def h_reassembly(ctx, L, k, fixed=(), sym=3, text=None, modes=4):
+def h_reassembly(ctx, L, k, fixed=(), sym=3, text=None, modes=(0, 1, 2, 3, 5)):
     """classes of the first positions (`fixed` by the unit, then `sym` engine forks), chunk count, cut offsets,
     drain pattern / exit flag: engine forks.  Classes of the remaining positions: enumerated exhaustively by the loop
     below (every combination), the first failing stream of a path is reported."""
@@ -227,7 +284,9 @@ def h_reassembly(ctx, L, k, fixed=(), sym=3, text=None, modes=4):
     else:
         L = len(text)
     pieces = cut_points(ctx, L, k)
-    drain, exited = MODES[ctx.choice('mode', modes)]
+    if isinstance(modes, int):
+        modes = tuple(range(modes))
+    drain, exited = MODES[ctx.pick('mode', modes) if len(modes) > 1 else modes[0]]
     if len(pieces) > 1:
         ctx.cover('split')
     fails = {}
@@ -249,6 +308,8 @@ def h_reassembly(ctx, L, k, fixed=(), sym=3, text=None, modes=4):
             ctx.cover('empty-line')
         if want_partial:
             ctx.cover('trailing-partial')
+        if 'debug ' in stream:
+            ctx.cover('debug-line-not-a-command')
         info = {'stream': stream, 'pieces': pieces, 'drain': DRAIN_MODES[drain], 'exited': exited}
         if bad is not None:
             fails.setdefault(bad[0], dict(info, **bad[1]))
@@ -270,6 +331,8 @@ def h_reassembly(ctx, L, k, fixed=(), sym=3, text=None, modes=4):
         summary += len(cmds) * 7 + len(buf)
     if exited:
         ctx.cover('helper-exited')
+    if exited == 'eof':
+        ctx.cover('helper-exited-eof')
     for name, sig in list(PER_READ.items()) + [
             ('same-commands-same-order', 'C14:reassembly:commands-differ-from-stream-lines'),
             ('service-name', 'C14:reassembly:wrong-service'),
@@ -495,15 +558,9 @@ class _Signal:
     received = 0
 
 
-_API_B = []
-
-
 def stubbed_api(reactor, inj):
-    """The real API object; every api_* parser method is replaced by a stub with a symbolic outcome."""
-    if not _API_B:
-        _API_B.append(API(None))
-    api = _API_B[0]
-    api.reactor = reactor
+    """A fresh real API object; every api_* parser method is replaced by a stub with a symbolic outcome."""
+    api = API(reactor)
     r = sample_routes()
     values = {
         'api_eor': [Family(1, 1), False], 'api_refresh': [[RouteRefresh.make_route_refresh(1, 1)], None],
@@ -607,7 +664,7 @@ ARGS = {
     ('routes', '?'): [''],
 }
 DEFAULT_ARGS = ['x y', '']
-NO_REPLY_BY_DESIGN = ('session ack silence',)  # documented: "Disable ACK responses immediately (no 'done' sent for this command)"
+NO_REPLY_BY_DESIGN = ('session ack silence', 'v4 silence-ack')  # documented: "Disable ACK responses immediately (no 'done' sent for this command)"
 
 
 def _leaves(node, path=()):
@@ -632,11 +689,7 @@ def v6_commands():
             for t in list(table) + ['?']:
                 for a in ARGS.get((word, t), DEFAULT_ARGS):
                     tt = 'bogus-type' if t == '?' else t
-                    if word == 'routes':
-                        text = '%s %s %s' % (prefix, tt, a)
-                    else:
-                        text = '%s %s %s' % (prefix, tt, a)
-                    out.append((word, '%s %s' % (word, tt), text.strip()))
+                    out.append((word, '%s %s' % (word, tt), ('%s %s %s' % (prefix, tt, a)).strip()))
             continue
         group = path[0] if path[0] != '#' else 'system'
         if path[:2] == ('peer', '*'):
@@ -682,7 +735,7 @@ def h_reply(ctx, commands, version, faults=True):
     getenv().api.version = version
     lines, raised = run_command(reactor, command)
     terms = terminals(lines)
-    want = 0 if label in NO_REPLY_BY_DESIGN or ('v4 silence-ack' == label) else 1
+    want = 0 if label.endswith(NO_REPLY_BY_DESIGN) else 1
     info = {'command': command, 'api-version': version, 'callees': inj.trace, 'lines': [x.decode()[:60] for x in lines][-4:],
             'raised': repr(raised) if raised else None}
     ctx.check('handler-does-not-raise', raised is None,
@@ -757,14 +810,17 @@ def h_sequence(ctx, n, version, background=(0,)):
             drive(reactor.asynchronous._run_async())
             late.extend(terminals([bytes(x) for x in list(q)[mark:]]))
     info = {'commands': kinds, 'api-version': version, 'replies-per-command': got, 'late': late, 'background-steps': g, 'callees': inj.trace}
-    shape = 'background%d' % g if g else 'plain'
-    ctx.check('one-reply-per-command-in-order', all(len(x) == 1 for x in got) and not late,
-              sig='C14:reply:sequence:%s:%s' % (shape, 'late-or-missing' if late or any(len(x) == 0 for x in got) else 'extra'), info=info)
-    for kind, x in zip(kinds, got):
-        if kind in ('unknown', 'no-match'):
-            ctx.check('invalid-command-answers-error', x == ['error'], sig='C14:reply:sequence:%s:invalid-not-error' % shape, info=info)
-        if kind == 'sync-version':
-            ctx.check('valid-command-answers-done', x == ['done'], sig='C14:reply:sequence:%s:valid-not-done' % shape, info=info)
+    shape = 'background-generator' if g else 'plain'
+    total = sum(len(x) for x in got) + len(late)
+    aligned = all(len(x) == 1 for x in got) and not late
+    fault = 'command-never-answered' if total < n else 'reply-late-or-out-of-order' if total == n else 'extra-reply'
+    ctx.check('one-reply-per-command-in-order', aligned, sig='C14:reply:sequence:%s:%s' % (shape, fault), info=info)
+    if aligned:
+        for kind, x in zip(kinds, got):
+            if kind in ('unknown', 'no-match'):
+                ctx.check('invalid-command-answers-error', x == ['error'], sig='C14:reply:sequence:%s:invalid-not-error' % shape, info=info)
+            if kind == 'sync-version':
+                ctx.check('valid-command-answers-done', x == ['done'], sig='C14:reply:sequence:%s:valid-not-done' % shape, info=info)
     if len(set(kinds)) > 1:
         ctx.cover('mixed-sequence')
     if any(x == ['error'] for x in got):
@@ -772,55 +828,504 @@ def h_sequence(ctx, n, version, background=(0,)):
     return got
 
 
+# ============================================================================= (c) side effects, selectors
+
+from collections import deque as _deque
+
+from kits.session import mk_conf, neighbor_from
+from exabgp.bgp.fsm import FSM
+from exabgp.rib.incoming import IncomingRIB
+from exabgp.rib.outgoing import OutgoingRIB
+import exabgp.rib.outgoing as ribout
+import exabgp.reactor.loop as loopm
+
+_quiet(ribout)
+_quiet(loopm)
+
+PROCESS_CONF = 'process svc {\n    run /bin/true;\n    encoder json;\n}\n'
+API_CONF = '    api {\n        processes [ svc ];\n    }\n'
+STATIC = ('route 10.8.0.0/24 next-hop 1.2.3.4', 'route 10.9.0.0/24 next-hop 1.2.3.4 watchdog dog withdraw')
+
+# name -> (peer-address, local-ip, local-as, peer-as, router-id, attached to the API process `svc`)
+NEIGHBORS = {
+    'A': ('127.0.0.2', '127.0.0.1', 65000, 65001, '1.2.3.4', True),
+    'B': ('127.0.0.3', '127.0.0.1', 65000, 65002, '1.2.3.4', True),
+    'C': ('127.0.0.4', '127.0.0.9', 65010, 65001, '9.9.9.9', True),
+    'D': ('127.0.0.5', '127.0.0.1', 65000, 65001, '1.2.3.4', False),  # configured, but not for this API process
+}
+KEYS = ('local-ip', 'local-as', 'peer-as', 'router-id')
+
+
+_INITIAL = {}
+
+
+def real_neighbors():
+    out = {}
+    for k, (peer, local, las, pas, rid, attached) in NEIGHBORS.items():
+        conf = (PROCESS_CONF if attached else '') + mk_conf(
+            peer=peer, local=local, local_as=las, peer_as=pas, router_id=rid, families=('ipv4 unicast', 'ipv6 unicast'),
+            routes=STATIC, extra=API_CONF if attached else '')
+        n = out[k] = neighbor_from(conf)
+        if k not in _INITIAL:
+            # what the configuration loaded into the RIB (ParseNeighbor._init_neighbor -> add_to_rib_watchdog)
+            o = n.rib.outgoing
+            _INITIAL[k] = (list(o._new_nlri.values()), {w: {sign: dict(d) for sign, d in t.items()} for w, t in o._watchdog.items()})
+    return out
+
+
+def fresh_state(k, n):
+    """Undo whatever an earlier path did to the (cached) Neighbor: new RIBs holding what the configuration loaded
+    (one pending route, one route held back by watchdog `dog`), empty message queues."""
+    fams = set(n.families())
+    n.rib.incoming = IncomingRIB(n.adj_rib_in, fams, True)
+    n.rib.outgoing = o = OutgoingRIB(n.adj_rib_out, fams, True)
+    routes, watchdog = _INITIAL[k]
+    for route in routes:
+        o.add_to_rib(route)
+    o._watchdog = {w: {sign: dict(d) for sign, d in t.items()} for w, t in watchdog.items()}
+    n.eor = _deque()
+    n.refresh = _deque()
+    n.messages = _deque()
+    n.asm = dict()
+
+
+def _h(b):
+    return bytes(b).hex()
+
+
+def snapshot(n, peer):
+    """Everything an API command may change about one neighbor."""
+    o = n.rib.outgoing
+    return {
+        'pending-announces': sorted(_h(k) for k in o._new_nlri),
+        'by-attribute': sorted([_h(a), str(f), sorted(_h(k) for k in d)] for a, fam in o._new_attr_af_nlri.items() for f, d in fam.items() if d),
+        'pending-withdraws': sorted([str(f), _h(k)] for f, d in o._pending_withdraws.items() for k in d),
+        'cache': sorted([str(f), _h(k)] for f, d in o._seen.items() for k in d),
+        'resend': [len(o._refresh_routes), sorted(str(f) for f in o._refresh_families)],
+        'watchdog': sorted([w, sign, _h(k)] for w, d in o._watchdog.items() for sign, dd in d.items() for k in dd),
+        'adj-rib-in': sorted([str(f), _h(k)] for f, d in n.rib.incoming._seen.items() for k in d),
+        'queues': [len(n.eor), len(n.refresh), len(n.messages), sorted(str(k) for k in n.asm)],
+        'session': list(peer.torn) + list(peer.calls),
+    }
+
+
+class PeerC:
+    """reactor.peer.Peer stand-in: the session side of a command's effect is recorded, not performed."""
+
+    def __init__(self, neighbor):
+        self.neighbor = neighbor
+        self.proto = None
+        self.fsm = FSM.ESTABLISHED
+        self.torn = []
+        self.calls = []
+
+    def teardown(self, code):
+        self.torn.append('teardown %d' % code)
+
+    def resend(self, enhanced):
+        self.calls.append('resend')
+        self.neighbor.rib.outgoing.resend(enhanced)
+
+    def remove(self):
+        self.calls.append('remove')
+
+    def cli_data(self):
+        return {}
+
+
+class RealishReactor:
+    """Reactor stand-in for (c).  REAL: Reactor.peers / established_peers / neighbor_* lookups and rib operations
+    (the functions of exabgp.reactor.loop.Reactor, bound here), Processes, ASYNC, API, dispatch, handlers, parsers,
+    Configuration.announce_route & co, Neighbors, RIBs.  Not real: Peer (PeerC), no sockets, no event loop."""
+
+    peers = loopm.Reactor.peers
+    established_peers = loopm.Reactor.established_peers
+    neighbor = loopm.Reactor.neighbor
+    neighbor_name = loopm.Reactor.neighbor_name
+    neighbor_ip = loopm.Reactor.neighbor_ip
+    neighbor_cli_data = loopm.Reactor.neighbor_cli_data
+    neighor_rib = loopm.Reactor.neighor_rib
+    neighbor_rib_resend = loopm.Reactor.neighbor_rib_resend
+    neighbor_rib_out_withdraw = loopm.Reactor.neighbor_rib_out_withdraw
+    neighbor_rib_in_clear = loopm.Reactor.neighbor_rib_in_clear
+    teardown_peer = loopm.Reactor.teardown_peer
+
+    def __init__(self):
+        self.processes = mk_answering_processes()
+        self.asynchronous = ASYNC()
+        self.asynchronous.set_error_handler(self.processes.answer_error_sync)
+        self.api = API(self)
+        self.configuration = cfgm.Configuration([])
+        self.neigh = real_neighbors()
+        self.configuration.neighbors = {}
+        self.configuration._routes = {}
+        self._peers = {}
+        for k, n in self.neigh.items():
+            fresh_state(k, n)
+            self.configuration.neighbors[n.name()] = n
+            self._peers[n.name()] = PeerC(n)
+        self._dynamic_peers = set()
+        self.signal = _Signal()
+        self.active_clients = {}
+        self.daemon_uuid = 'uuid'
+        self.daemon_start_time = 0.0
+
+    def snapshot(self):
+        snap = {k: snapshot(n, self._peers[n.name()]) for k, n in self.neigh.items()}
+        snap['route-store'] = sorted(_h(k) for k in self.configuration._routes)
+        snap['peers'] = sorted(k for k, n in self.neigh.items() if n.name() in self._peers and n.name() in self.configuration.neighbors)
+        return snap
+
+    def send(self, text):
+        """The helper writes `text` + newline: through the REAL reader callback (so the command is normalised the
+        way the daemon does it), received_async, then one main-loop iteration per command."""
+        fake_os = _OS()
+        pm.os = fake_os
+        fake_os.chunks.append((text + '\n').encode('ascii'))
+        self.processes._async_reader_callback(SVC)
+        out = []
+        while True:
+            cmds = list(self.processes.received_async())
+            if not cmds:
+                break
+            for service, command in cmds:
+                out.append(run_command(self, command))
+        return out
+
+
+def changed(before, after):
+    return sorted(k for k in before if before[k] != after[k])
+
+
+INVALID = [
+    # (class, v4 spelling, v6 spelling)
+    ('unknown-verb', 'frobnicate 10.0.0.0/24', 'frobnicate 10.0.0.0/24'),
+    ('unknown-verb', 'announce-route 10.0.0.0/24 next-hop 1.2.3.4', 'peer * announce-route 10.0.0.0/24 next-hop 1.2.3.4'),
+    ('truncated', 'announce', 'peer * announce'),
+    ('truncated', 'announce route', 'peer * announce route'),
+    ('truncated', 'withdraw route', 'peer * withdraw route'),
+    ('truncated', 'neighbor 127.0.0.2', 'peer 127.0.0.2'),
+    ('truncated', 'neighbor 127.0.0.2 announce', 'peer 127.0.0.2 announce'),
+    ('truncated', 'announce route 10.0.0.0/24 next-hop', 'peer * announce route 10.0.0.0/24 next-hop'),
+    ('truncated', 'announce route 10.0.0.0/24 next-hop 1.2.3.4 local-preference', 'peer * announce route 10.0.0.0/24 next-hop 1.2.3.4 local-preference'),
+    ('no-next-hop', 'announce route 10.0.0.0/24', 'peer * announce route 10.0.0.0/24'),
+    ('bad-prefix', 'announce route 10.0.0.0/33 next-hop 1.2.3.4', 'peer * announce route 10.0.0.0/33 next-hop 1.2.3.4'),
+    ('bad-prefix', 'announce route 10.0.0.300/24 next-hop 1.2.3.4', 'peer * announce route 10.0.0.300/24 next-hop 1.2.3.4'),
+    ('bad-prefix', 'announce route not-a-prefix next-hop 1.2.3.4', 'peer * announce route not-a-prefix next-hop 1.2.3.4'),
+    ('bad-prefix', 'withdraw route 10.8.0.0/99', 'peer * withdraw route 10.8.0.0/99'),
+    ('bad-attribute', 'announce route 10.0.0.0/24 next-hop 1.2.3.4 med not-a-number', 'peer * announce route 10.0.0.0/24 next-hop 1.2.3.4 med not-a-number'),
+    ('bad-attribute', 'announce route 10.0.0.0/24 next-hop 1.2.3.4 origin sideways', 'peer * announce route 10.0.0.0/24 next-hop 1.2.3.4 origin sideways'),
+    ('bad-attribute', 'announce route 10.0.0.0/24 next-hop 1.2.3.4 community [ 1:2', 'peer * announce route 10.0.0.0/24 next-hop 1.2.3.4 community [ 1:2'),
+    ('bad-attribute', 'announce route 10.0.0.0/24 next-hop 1.2.3.4 community 70000:1', 'peer * announce route 10.0.0.0/24 next-hop 1.2.3.4 community 70000:1'),
+    ('bad-attribute', 'announce route 10.0.0.0/24 next-hop 1.2.3.4 as-path [ 1 x 3 ]', 'peer * announce route 10.0.0.0/24 next-hop 1.2.3.4 as-path [ 1 x 3 ]'),
+    ('bad-attribute', 'announce route 10.0.0.0/24 next-hop 999.2.3.4', 'peer * announce route 10.0.0.0/24 next-hop 999.2.3.4'),
+    ('unknown-attribute', 'announce route 10.0.0.0/24 next-hop 1.2.3.4 frobnication 5', 'peer * announce route 10.0.0.0/24 next-hop 1.2.3.4 frobnication 5'),
+    ('bad-attribute', 'announce attributes next-hop 1.2.3.4 med 5 nlri 10.1.0.0/24 10.2.0.0/33', 'peer * announce attributes next-hop 1.2.3.4 med 5 nlri 10.1.0.0/24 10.2.0.0/33'),
+    ('bad-attribute', 'withdraw attributes next-hop 1.2.3.4 nlri 10.8.0.0/24 10.8.0.0/44', 'peer * withdraw attributes next-hop 1.2.3.4 nlri 10.8.0.0/24 10.8.0.0/44'),
+    ('bad-family', 'announce ipv4 unicast 10.0.0.0/40 next-hop 1.2.3.4', 'peer * announce ipv4 unicast 10.0.0.0/40 next-hop 1.2.3.4'),
+    ('bad-family', 'announce ipv6 unicast 2001:db8::/200 next-hop 2001:db8::1', 'peer * announce ipv6 unicast 2001:db8::/200 next-hop 2001:db8::1'),
+    ('bad-family', 'announce ipv4 frobnicast 10.0.0.0/24 next-hop 1.2.3.4', 'peer * announce ipv4 frobnicast 10.0.0.0/24 next-hop 1.2.3.4'),
+    ('bad-flow', 'announce flow route { match { source 10.0.0.0/40; } then { discard; } }', 'peer * announce flow route { match { source 10.0.0.0/40; } then { discard; } }'),
+    ('bad-flow', 'announce flow route { match { source 10.0.0.0/24; } then { frobnicate; } }', 'peer * announce flow route { match { source 10.0.0.0/24; } then { frobnicate; } }'),
+    ('bad-vpls', 'announce vpls frobnicate', 'peer * announce vpls frobnicate'),
+    ('bad-eor', 'announce eor ipv4 frobnicast', 'peer * announce eor ipv4 frobnicast'),
+    ('bad-eor', 'announce eor ipv4', 'peer * announce eor ipv4'),
+    ('bad-refresh', 'announce route-refresh ipv4 frobnicast', 'peer * announce route-refresh ipv4 frobnicast'),
+    ('bad-refresh', 'announce route-refresh', 'peer * announce route-refresh'),
+    ('bad-operational', 'announce operational asm afi ipv4 safi frobnicast advisory "x"', 'peer * announce operational asm afi ipv4 safi frobnicast advisory "x"'),
+    ('bad-teardown', 'teardown x', 'peer * teardown x'),
+    ('bad-teardown', 'neighbor 127.0.0.2 teardown', 'peer 127.0.0.2 teardown'),
+    ('bad-rib-command', 'show adj-rib sideways', 'rib show sideways'),
+    ('bad-rib-command', 'flush adj-rib in', 'rib frobnicate out'),
+    ('bad-rib-command', 'clear adj-rib', 'rib'),
+    ('unknown-selector-key', 'neighbor 127.0.0.2 frob-key 5 announce route 10.0.0.0/24 next-hop 1.2.3.4', 'peer 127.0.0.2 frob-key 5 announce route 10.0.0.0/24 next-hop 1.2.3.4'),
+    ('unknown-selector-key', 'neighbor 127.0.0.2 peer-as announce route 10.0.0.0/24 next-hop 1.2.3.4', 'peer 127.0.0.2 peer-as announce route 10.0.0.0/24 next-hop 1.2.3.4'),
+    ('bad-group', 'neighbor 127.0.0.2 group announce route 10.0.0.0/24 next-hop 1.2.3.4', 'peer 127.0.0.2 group ;'),
+    ('bad-peer-command', 'create neighbor 127.0.0.9', 'peer create 127.0.0.9'),
+    ('bad-peer-command', 'delete neighbor 9.9.9.9', 'peer delete 9.9.9.9'),
+]
+
+VALID = [
+    ('announce', 'announce route 10.0.0.0/24 next-hop 1.2.3.4 med 5', 'peer * announce route 10.0.0.0/24 next-hop 1.2.3.4 med 5'),
+    ('withdraw', 'withdraw route 10.8.0.0/24', 'peer * withdraw route 10.8.0.0/24'),
+    ('watchdog', 'announce watchdog dog', 'peer * announce watchdog dog'),
+    ('teardown', 'teardown 6', 'peer * teardown 6'),
+    ('flush', 'flush adj-rib out', 'rib flush out'),
+]
+
+
+def h_sideeffect(ctx, version, pool, valid=False):
+    klass, v4, v6 = ctx.pick('cmd', pool)
+    text = v4 if version == 4 else v6
+    reactor = RealishReactor()
+    getenv().api.version = version
+    before = reactor.snapshot()
+    results = reactor.send(text)
+    after = reactor.snapshot()
+    diff = changed(before, after)
+    terms = [terminals(lines) for lines, raised in results]
+    raised = [repr(r) for lines, r in results if r is not None]
+    info = {'command': text, 'api-version': version, 'changed': diff, 'replies': terms, 'raised': raised,
+            'lines': [x.decode()[:80] for lines, _ in results for x in lines][-3:]}
+    sig = '%s:%s' % (klass, ' '.join(w for w in text.split() if w.replace('-', '').isalpha())[:48])
+    ctx.check('one-command-read', len(results) == 1, sig='C14:sideeffect:not-one-command:' + sig, info=info)
+    ctx.check('handler-does-not-raise', not raised, sig='C14:sideeffect:exception-escapes-process:' + sig, info=info)
+    if valid:
+        ctx.check('valid-command-has-its-effect', diff != [], sig='C14:sideeffect:valid-command-without-effect:' + sig, info=info)
+        ctx.check('valid-command-answers-done', terms == [['done']], sig='C14:sideeffect:valid-command-not-done:' + sig, info=info)
+        ctx.check('unattached-neighbor-untouched', 'D' not in diff, sig='C14:sideeffect:unattached-neighbor-changed:' + sig, info=info)
+        ctx.cover('valid-command-changes-rib')
+        return [klass, diff, terms]
+    ctx.check('invalid-command-changes-nothing', diff == [], sig='C14:sideeffect:invalid-command-changed-state:' + sig, info=info)
+    ctx.check('invalid-command-answers-one-error', terms == [['error']], sig='C14:sideeffect:invalid-command-reply:%s:%s' % (
+        sig, '+'.join(terms[0]) if terms and terms[0] else 'none'), info=info)
+    ctx.check('nothing-left-scheduled', not reactor.asynchronous._async, sig='C14:sideeffect:work-left-scheduled:' + sig, info=info)
+    ctx.cover('invalid-' + klass)
+    ctx.cover('error-outcome')
+    return [klass, diff, terms]
+
+
+def h_group_mode(ctx, version):
+    """group start / buffered commands (valid and invalid) / group end: one terminal reply per line; the invalid
+    lines change nothing, the valid ones have their effect on the neighbors of the process only."""
+    reactor = RealishReactor()
+    getenv().api.version = version
+    before = reactor.snapshot()
+    bad = ctx.pick('bad', ['announce route 10.0.0.0/33 next-hop 1.2.3.4', 'announce route 10.0.0.0/24', 'withdraw route', 'announce frobnicate x'])
+    with_good = bool(ctx.choice('with_good', 2))
+    lines = ['group start', bad] + (['announce route 10.0.0.0/24 next-hop 1.2.3.4'] if with_good else []) + ['group end']
+    terms = []
+    for text in lines:
+        for out, raised in reactor.send(text):
+            terms.append(terminals(out))
+    after = reactor.snapshot()
+    diff = changed(before, after)
+    info = {'lines': lines, 'replies': terms, 'changed': diff, 'api-version': version}
+    ctx.check('one-terminal-reply-per-line', len(terms) == len(lines) and all(len(t) == 1 for t in terms),
+              sig='C14:sideeffect:group-mode:replies', info=info)
+    want = ['A', 'B', 'C'] if with_good else []
+    ctx.check('only-valid-lines-have-effect', diff == want, sig='C14:sideeffect:group-mode:%s' % ('invalid-line-changed-state' if not with_good else 'wrong-neighbors'), info=info)
+    ctx.check('group-state-released', not c_grp._GROUP_BUFFERS, sig='C14:sideeffect:group-mode:buffer-left', info=info)
+    ctx.cover('group-mode')
+    if with_good:
+        ctx.cover('group-mixed-valid-invalid')
+    return [terms, diff]
+
+
+# ---- selectors
+
+POOLS = {
+    'ip': ['127.0.0.2', '127.0.0.3', '127.0.0.4', '127.0.0.5', '9.9.9.9', '*'],
+    'local-ip': [None, '127.0.0.1', '127.0.0.9', '7.7.7.7'],
+    'local-as': [None, 65000, 65010, 7],
+    'peer-as': [None, 65001, 65002, 7],
+    'router-id': [None, '1.2.3.4', '9.9.9.9', '7.7.7.7'],
+}
+ACTIONS = {
+    'announce': 'announce route 10.0.0.0/24 next-hop 1.2.3.4',
+    'withdraw': 'withdraw route 10.8.0.0/24',
+    'watchdog': 'announce watchdog dog',
+    'teardown': 'teardown 6',
+    'routes-add': 'routes add route 10.0.0.0/24 next-hop 1.2.3.4',
+    'group-inline': 'group announce route 10.0.0.0/24 next-hop 1.2.3.4 ; withdraw route 10.8.0.0/24',
+}
+
+
+def oracle_matches(alternatives):
+    """Selector semantics as documented (extract_neighbors docstring, `help`: `[peer <ip> [filters]]`, filters
+    local-ip / local-as / peer-as / router-id): a neighbor is selected iff, for at least one of the comma separated
+    alternatives, its peer address equals the <ip> (or the <ip> is `*`) AND every given filter equals the neighbor's
+    value.  Only neighbors attached to the API process can be selected at all."""
+    out = []
+    for k, (peer, local, las, pas, rid, attached) in NEIGHBORS.items():
+        mine = {'local-ip': local, 'local-as': las, 'peer-as': pas, 'router-id': rid}
+        for ip, terms in alternatives:
+            if (ip == '*' or ip == peer) and all(mine[key] == val for key, val in terms) and attached:
+                out.append(k)
+                break
+    return out
+
+
+def selector_text(syntax, alternatives):
+    def one(ip, terms):
+        return ' '.join([ip] + ['%s %s' % (k, v) for k, v in terms])
+    if syntax == 'v4':
+        return ', '.join('neighbor ' + one(ip, t) for ip, t in alternatives)
+    if len(alternatives) == 1:
+        return 'peer ' + one(*alternatives[0])
+    return 'peer [' + ', '.join(one(ip, t) for ip, t in alternatives) + ']'
+
+
+def selector_verdict(ctx, syntax, action, alternatives, version):
+    reactor = RealishReactor()
+    getenv().api.version = version
+    text = selector_text(syntax, alternatives) + ' ' + ACTIONS[action]
+    before = reactor.snapshot()
+    results = reactor.send(text)
+    after = reactor.snapshot()
+    diff = [k for k in changed(before, after) if k in NEIGHBORS]
+    store = before['route-store'] != after['route-store']
+    want = oracle_matches(alternatives)
+    terms = [terminals(lines) for lines, raised in results]
+    raised = [repr(r) for lines, r in results if r is not None]
+    wild = any(ip == '*' for ip, t in alternatives)
+    filtered = any(t for ip, t in alternatives)
+    if not want:
+        shape = 'no-match'
+        ctx.cover('selector-no-match')
+    elif len(want) == 3:
+        shape = 'all-match'
+        ctx.cover('selector-all-match')
+    else:
+        shape = 'partial-match'
+        ctx.cover('selector-partial-match')
+    if wild and filtered:
+        shape = 'wildcard-with-filters'
+    if wild:
+        ctx.cover('selector-wildcard')
+    if len(alternatives) > 1:
+        ctx.cover('selector-group')
+    info = {'command': text, 'api-version': version, 'changed': diff, 'selected-by-oracle': want, 'replies': terms, 'raised': raised}
+    extra = sorted(set(diff) - set(want))
+    missing = sorted(set(want) - set(diff))
+    refused = terms == [['error']] and not diff
+    tag = '%s:%s' % (syntax, shape)
+    ctx.check('handler-does-not-raise', not raised, sig='C14:selector:%s:exception-escapes-process:%s' % (tag, action), info=info)
+    ctx.check('only-selected-neighbors-change', not extra,
+              sig='C14:selector:%s:%s:%s' % (tag, 'unattached-neighbor-changed' if 'D' in extra else 'unselected-neighbor-changed', action), info=info)
+    if wild and filtered and refused:
+        # `* <filters>`: the documentation does not say the form exists; refusing it (one error, nothing changed) keeps
+        # "only the matching neighbors change" and is accepted.  Accepting it must mean the conjunction (checked above).
+        ctx.cover('wildcard-with-filters-refused')
+    else:
+        ctx.check('every-selected-neighbor-changes', not missing, sig='C14:selector:%s:selected-neighbor-unchanged:%s' % (tag, action), info=info)
+        ok_reply = terms == ([['done']] if want else [['error']])
+        if action == 'routes-add':
+            ok_reply = ok_reply or terms == [[]]  # the missing terminal reply of `routes add` is reply/*'s finding, not a selector matter
+        ctx.check('reply-matches-selection', ok_reply, sig='C14:selector:%s:reply-%s:%s' % (
+            tag, ('+'.join(terms[0]) if terms and terms[0] else 'none') + ('-without-match' if not want else ''), action), info=info)
+    ctx.note('class', '%s %s' % (shape, 'ok' if not extra and not missing else 'extra' if extra else 'missing'))
+    return [diff, want, terms]
+
+
+def h_selector(ctx, syntax, action, version, ip=None, keys=KEYS):
+    ip = ip if ip is not None else ctx.pick('ip', POOLS['ip'])
+    terms = []
+    for key in keys:
+        v = ctx.pick(key, POOLS[key])
+        if v is not None:
+            terms.append((key, v))
+    if len(terms) > 1 and ctx.choice('reversed', 2):
+        terms.reverse()
+        ctx.cover('terms-in-other-order')
+    return selector_verdict(ctx, syntax, action, [(ip, terms)], version)
+
+
+def h_selector_group(ctx, syntax, action, version):
+    alts = []
+    for j in range(2):
+        ip = ctx.pick('ip%d' % j, ['127.0.0.2', '127.0.0.4', '127.0.0.5', '9.9.9.9'])
+        v = ctx.pick('peer-as%d' % j, [None, 65001, 7])
+        alts.append((ip, [('peer-as', v)] if v is not None else []))
+    return selector_verdict(ctx, syntax, action, alts, version)
+
+
 TEXT = ('announce route 10.0.0.0/24 next-hop 1.2.3.4\nneighbor 127.0.0.2 withdraw route 10.0.0.0/24\r\n'
-        '  debug hello \n\nversion\t \nsho')
+        'debug hello \n\n  version\t \nsho')
+TEXT_TAIL = TEXT[TEXT.index('0/24\r'):]
+
+
+def _fork_units(ctx, subs):
+    """Several harnesses in one unit (the runner is kept at <= 22 units): the first fork chooses the harness."""
+    name, fn = ctx.pick('part', subs)
+    ctx.cover('part:' + name)
+    return [name, fn(ctx)]
+
+
+def merged(name, subs, must_cover=(), **kw):
+    subs = list(subs)
+    return Unit(name, lambda ctx: _fork_units(ctx, subs), must_cover=tuple(must_cover) + tuple('part:' + n for n, _ in subs), **kw)
 
 
 def units(tier):
     th = tier == 'thorough'
     us = []
+    # ---- (a)
     cov = ('split', 'partial-line-kept', 'two-commands-one-read', 'read-without-newline', 'command', 'two-commands',
-           'empty-line', 'trailing-partial', 'helper-exited')
+           'empty-line', 'trailing-partial', 'helper-exited', 'helper-exited-eof', 'debug-line-not-a-command')
     K = 4 if th else 3
-    for L in range(1, 8):
-        us.append(Unit('reassembly/L%d' % L, lambda ctx, L=L: h_reassembly(ctx, L, K), weight=3 ** L,
-                       must_cover=cov if L >= 4 else ()))
-    for L in ((8, 9, 10) if th else (8,)):
+    small = [('L%d' % L, lambda ctx, L=L: h_reassembly(ctx, L, K, sym=2)) for L in range(1, 9 if th else 8)]
+    small.append(('text-k2', lambda ctx: h_reassembly(ctx, 0, 2, text=TEXT, modes=6)))
+    small.append(('text-k%d' % K, lambda ctx: h_reassembly(ctx, 0, K, text=TEXT_TAIL, modes=6)))
+    us.append(merged('reassembly/small', small, must_cover=cov, weight=40000 if th else 4000, max_seconds=1500, max_paths=400000))
+    part_cov = ('split', 'partial-line-kept', 'helper-exited')
+    if not th:
         for a in range(3):
-            for b in (range(3) if L > 8 else (None,)):
-                fixed = (a,) if b is None else (a, b)
-                us.append(Unit('reassembly/L%d/%s' % (L, ''.join('nwo'[c] for c in fixed)),
-                               lambda ctx, L=L, f=fixed: h_reassembly(ctx, L, K, fixed=f), weight=3 ** (L - len(fixed)),
-                               must_cover=('split', 'partial-line-kept', 'helper-exited'), max_seconds=1500, max_paths=400000))
-    if th:
-        for L in (11, 12):
-            for a in range(3):
-                for b in range(3):
-                    us.append(Unit('reassembly/L%d/%s' % (L, 'nwo'[a] + 'nwo'[b]),
-                                   lambda ctx, L=L, f=(a, b): h_reassembly(ctx, L, 3, fixed=f, sym=2, modes=1),
-                                   weight=3 ** (L - 2), must_cover=('split', 'partial-line-kept'), max_seconds=1500))
-    us.append(Unit('reassembly/text/k2', lambda ctx: h_reassembly(ctx, 0, 2, text=TEXT, modes=5), weight=300,
-                   must_cover=('split', 'partial-line-kept', 'two-commands-one-read', 'helper-exited')))
-    us.append(Unit('reassembly/text/k3', lambda ctx: h_reassembly(ctx, 0, 4 if th else 3, text=TEXT[84:], modes=5), weight=300,
-                   must_cover=('split', 'partial-line-kept', 'two-commands-one-read')))
-
+            us.append(Unit('reassembly/L8/%s' % 'nwo'[a], lambda ctx, f=(a,): h_reassembly(ctx, 8, 3, fixed=f, sym=2), weight=3000, must_cover=part_cov))
+    else:
+        # L9, L10: all <=4-chunkings; drained after every read with the helper alive / at the end with the helper exiting
+        two = (0, 4)
+        us.append(merged('reassembly/L10/n+w', [('n', lambda ctx: h_reassembly(ctx, 10, 4, fixed=(0,), sym=2, modes=two)),
+                                                 ('w', lambda ctx: h_reassembly(ctx, 10, 4, fixed=(1,), sym=2, modes=two))],
+                         must_cover=part_cov, weight=90000, max_seconds=3000, max_paths=400000))
+        us.append(merged('reassembly/L10/o+L9', [('L10o', lambda ctx: h_reassembly(ctx, 10, 4, fixed=(2,), sym=2, modes=two)),
+                                                  ('L9', lambda ctx: h_reassembly(ctx, 9, 4, sym=2, modes=two))],
+                         must_cover=part_cov, weight=80000, max_seconds=3000, max_paths=400000))
+        us.append(Unit('reassembly/L11', lambda ctx: h_reassembly(ctx, 11, 3, sym=2, modes=(0,)),
+                       must_cover=('split', 'partial-line-kept'), weight=60000, max_seconds=3000, max_paths=400000))
+        for a in range(3):
+            us.append(Unit('reassembly/L12/%s' % 'nwo'[a], lambda ctx, f=(a,): h_reassembly(ctx, 12, 3, fixed=f, sym=1, modes=(0,)),
+                           must_cover=('split', 'partial-line-kept'), weight=100000, max_seconds=3000, max_paths=400000))
     # ---- (b)
     v6 = v6_commands()
     v4 = v4_commands()
-    for version, cmds in ((6, v6), (4, v4), (4, [(g, 'v6-in-v4 ' + l, c) for g, l, c in v6 if g in ('announce', 'rib', 'session')])):
-        groups = {}
-        for g, label, text in cmds:
-            groups.setdefault(g, []).append((label, text))
-        for g, lst in sorted(groups.items()):
-            name = 'reply/v%d/%s%s' % (version, g, '/v6-spelling' if lst[0][0].startswith('v6-in-v4') else '')
-            cov = ['done-outcome']
-            if g in ('announce', 'withdraw', 'routes', 'v4-announce', 'v4-withdraw', 'v4-neighbor', 'rib', 'peer-selector'):
-                cov += ['error-outcome', 'fault-injected', 'fault-KeyError', 'fault-ValueError', 'no-peers']
-            us.append(Unit(name, lambda ctx, lst=lst, v=version: h_reply(ctx, lst, v), must_cover=cov, weight=20 * len(lst), reset=reset_world))
+
+    def grp(cmds, names):
+        return [(label, text) for g, label, text in cmds if g in names]
+
+    fault_cov = ('done-outcome', 'error-outcome', 'fault-injected', 'fault-KeyError', 'fault-ValueError', 'fault-IndexError', 'fault-RuntimeError', 'no-peers')
+    v6_in_v4 = [(g, 'v6-in-v4 ' + label, c) for g, label, c in v6 if g in ('announce', 'rib', 'session')]
+    known6 = set(g for g, _, _ in v6)
+    known4 = set(g for g, _, _ in v4)
+    plan = [
+        ('reply/v6/control', 6, grp(v6, known6 - {'announce', 'withdraw', 'routes', 'rib', 'peer-selector'}), ('done-outcome', 'error-outcome')),
+        ('reply/v6/announce', 6, grp(v6, {'announce'}), fault_cov),
+        ('reply/v6/withdraw+routes+rib+selector', 6, grp(v6, {'withdraw', 'routes', 'rib', 'peer-selector'}), fault_cov),
+        ('reply/v4/announce', 4, grp(v4, {'v4-announce'}), fault_cov),
+        ('reply/v4/withdraw+other', 4, grp(v4, known4 - {'v4-announce', 'v4-neighbor'}) + grp(v6_in_v4, {'rib', 'session'}), fault_cov),
+        ('reply/v4/neighbor', 4, grp(v4, {'v4-neighbor'}) + (grp(v6_in_v4, {'announce'}) if th else []), fault_cov),
+    ]
+    for name, version, lst, cv in plan:
+        us.append(Unit(name, lambda ctx, lst=lst, v=version: h_reply(ctx, lst, v), must_cover=cv, weight=20 * len(lst), reset=reset_world,
+                       max_seconds=1500, max_paths=100000))
+    N = 3
+    us.append(merged('reply/unknown+sequence', [('unknown-v4', lambda ctx: h_unknown(ctx, 4)), ('unknown-v6', lambda ctx: h_unknown(ctx, 6)),
+                                                ('sequence-v4', lambda ctx: h_sequence(ctx, N, 4)), ('sequence-v6', lambda ctx: h_sequence(ctx, N, 6))],
+                     must_cover=('mixed-sequence', 'error-outcome'), weight=1500, reset=reset_world, max_seconds=1500))
+    bgs = (1, 2, 48, 49, 50, 51) if th else (2, 49, 50)
+    us.append(merged('reply/sequence-background', [('v4', lambda ctx: h_sequence(ctx, 2, 4, background=bgs)), ('v6', lambda ctx: h_sequence(ctx, 2, 6, background=bgs))],
+                     must_cover=('mixed-sequence', 'background-generator'), weight=800, reset=reset_world))
+    # ---- (c)
     for version in (4, 6):
-        us.append(Unit('reply/v%d/unknown' % version, lambda ctx, v=version: h_unknown(ctx, v), must_cover=('error-outcome',), weight=10, reset=reset_world))
-        us.append(Unit('reply/v%d/sequence' % version, lambda ctx, v=version: h_sequence(ctx, 3, v), must_cover=('mixed-sequence', 'error-outcome'),
-                       weight=150, reset=reset_world))
-        us.append(Unit('reply/v%d/sequence-background' % version, lambda ctx, v=version: h_sequence(ctx, 2, v, background=(1, 2, 48, 49, 50, 51)),
-                       must_cover=('mixed-sequence', 'background-generator'), weight=150, reset=reset_world))
+        subs = [('invalid-%02d' % (n // 8), lambda ctx, v=version, pool=INVALID[n:n + 8]: h_sideeffect(ctx, v, pool)) for n in range(0, len(INVALID), 8)]
+        subs.append(('valid', lambda ctx, v=version: h_sideeffect(ctx, v, VALID, valid=True)))
+        subs.append(('group-mode', lambda ctx, v=version: h_group_mode(ctx, v)))
+        us.append(merged('sideeffect/v%d' % version, subs, must_cover=('error-outcome', 'valid-command-changes-rib', 'group-mode', 'group-mixed-valid-invalid') + tuple(
+            'invalid-' + k for k in sorted(set(k for k, _, _ in INVALID))), weight=600, reset=reset_world))
+    sel_cov = ('selector-no-match', 'selector-partial-match', 'selector-all-match', 'selector-wildcard')
+    for syntax, version in (('v4', 4), ('v6', 6)):
+        for half, ips in (('a', POOLS['ip'][:3]), ('b', POOLS['ip'][3:])):
+            us.append(merged('selector/%s/announce/%s' % (syntax, half),
+                             [(ip, lambda ctx, s=syntax, v=version, ip=ip: h_selector(ctx, s, 'announce', v, ip=ip)) for ip in ips],
+                             must_cover=('selector-no-match', 'selector-partial-match', 'terms-in-other-order'), weight=1500, reset=reset_world, max_seconds=1500))
+    other = []
+    for syntax, version in (('v4', 4), ('v6', 6)):
+        for action in ACTIONS:
+            if action == 'announce' or (syntax == 'v4' and action in ('routes-add', 'group-inline')):
+                continue
+            other.append(('%s-%s' % (syntax, action), lambda ctx, s=syntax, v=version, a=action: h_selector(ctx, s, a, v, keys=('peer-as', 'router-id'))))
+        other.append(('%s-group' % syntax, lambda ctx, s=syntax, v=version: h_selector_group(ctx, s, 'announce', v)))
+    other.append(('v6-in-v4-announce', lambda ctx: h_selector(ctx, 'v6', 'announce', 4, keys=('peer-as', 'local-as'))))
+    us.append(merged('selector/other', other, must_cover=sel_cov + ('selector-group',), weight=2000, reset=reset_world, max_seconds=1500))
+    assert len(us) <= 22, len(us)
     return us
